@@ -870,9 +870,9 @@ theorem extract_time_range_empty (s : Store K F) (h : s.times = []) (t : K) (a b
   unfold extractTimeRange
   simp [h]
 
-/-- **extract_time_range is consistent with the stored frames**: on sorted times the result
-holds exactly the stored pairs with `a ≤ t ≤ b`, in storage order. -/
-theorem extract_time_range_consistent (s : Store K F) (hlen : s.times.length = s.frames.length)
+/-- on sorted times the result of `extract_time_range` holds exactly the stored pairs with
+`a ≤ t ≤ b`, in storage order (the sorted half of `extract_time_range_consistent`) -/
+theorem extract_time_range_sorted (s : Store K F) (hlen : s.times.length = s.frames.length)
     (hs : s.times.Pairwise (· ≤ ·)) (a b : K) :
     ∃ s', extractTimeRange s (.pair (some a) (some b)) = .ok s' ∧
       s'.contents = s.contents.filter (fun p => decide (a ≤ p.1 ∧ p.1 ≤ b)) := by
@@ -898,6 +898,28 @@ theorem extract_time_range_consistent (s : Store K F) (hlen : s.times.length = s
     refine ⟨?_, h3⟩
     by_contra hlt
     exact absurd (hl.mpr (not_le.mp hlt)) (by omega)
+
+/-- **extract_time_range is consistent with the stored frames** (full statement).  For ANY stored times
+(sorted or not) the call with both ends never fails and returns a storage in the default write mode with
+the same template that holds a contiguous run of the stored pairs - the *same* frame objects -; and
+whenever the stored times are sorted that run is exactly the stored pairs with `a ≤ t ≤ b`, in order.
+(On unsorted times "the pairs in the interval" has no documented meaning: `np.searchsorted` returns
+whatever its search loop reaches; the run property is all that can be promised.) -/
+theorem extract_time_range_consistent (s : Store K F) (hlen : s.times.length = s.frames.length)
+    (a b : K) :
+    ∃ s' i n, extractTimeRange s (.pair (some a) (some b)) = .ok s' ∧
+      s'.contents = (s.contents.drop i).take n ∧ s'.frames = (s.frames.drop i).take n ∧
+      s'.template = s.template ∧ s'.mode = .truncateOnce ∧
+      (s.times.Pairwise (· ≤ ·) →
+        s'.contents = s.contents.filter (fun p => decide (a ≤ p.1 ∧ p.1 ≤ b))) := by
+  obtain ⟨s', i, n, h1, _, _, hc, hf, ht, hm, _⟩ := extract_time_range_is_slice s hlen a b
+  refine ⟨s', i, n, h1, hc, hf, ht, hm, ?_⟩
+  intro hs
+  obtain ⟨s'', h2, h3⟩ := extract_time_range_sorted s hlen hs a b
+  rw [h1] at h2
+  cases h2
+  exact h3
+
 
 end bisect
 
@@ -1489,7 +1511,190 @@ theorem applyTo_some_srun (s : Store K F) (hw : WF s) (finfo : FieldInfo → Fie
           subst e1
           cases el <;> rfl
 
+/-- `copy`/`apply` when numpy cannot cast the transformed data to the dtype of the output storage
+(`canCast = false`): `out.start_writing(transformed)` decides first (its error, or - accepted - the
+truncation it performs as documented); then the very first `append` raises `TypeError` and nothing is added -/
+theorem copy_apply_castfail (s : Store K F) (hw : WF s) (finfo : FieldInfo → FieldInfo)
+    (newFrames : List F) (hn : newFrames.length = s.frames.length) (fi : FieldInfo)
+    (ht : s.template = some fi) (hne : s.frames ≠ []) (out : Option (Store K F)) :
+    ((startWriting (outOrNew out (finfo fi)) (finfo fi)).2 = none →
+      applyTo s finfo newFrames out false =
+        (some (startWriting (outOrNew out (finfo fi)) (finfo fi)).1, some .type)) ∧
+    (∀ e, (startWriting (outOrNew out (finfo fi)) (finfo fi)).2 = some e →
+      applyTo s finfo newFrames out false =
+        (some (startWriting (outOrNew out (finfo fi)) (finfo fi)).1, some e)) := by
+  have hpos : 0 < s.frames.length := List.length_pos_iff.mpr hne
+  have hnf : newFrames ≠ [] := by intro h; rw [h] at hn; simp at hn; omega
+  obtain ⟨nf, nfs, rfl⟩ := List.exists_cons_of_ne_nil hnf
+  have hr : List.range s.times.length = 0 :: (List.range' 1 (s.times.length - 1)) := by
+    rw [List.range_eq_range']
+    have : s.times.length = (s.times.length - 1) + 1 := by rw [hw.1]; omega
+    conv_lhs => rw [this, List.range'_succ]
+  obtain ⟨fi', hfi', hgf⟩ := getField_nat s hw 0 hpos
+  rw [ht] at hfi'; cases hfi'
+  have hgf0 : getField s (0 : Int) = .ok (fi, s.frames[0]) := by simpa using hgf
+  obtain ⟨t0, hti⟩ : ∃ t, s.times[0]? = some t :=
+    ⟨s.times[0]'(by rw [hw.1]; exact hpos), List.getElem?_eq_getElem (by rw [hw.1]; exact hpos)⟩
+  constructor
+  · intro hacc
+    obtain ⟨gr, _, gd⟩ := startWriting_accepted_ready _ (finfo fi) hacc
+    have hap := append_castfail _ (finfo fi) t0 nf gr gd
+    unfold applyTo
+    rw [hr]
+    simp only [List.zip_cons_cons]
+    unfold applyLoop
+    simp only [Nat.cast_zero]
+    rw [hgf0, hti]
+    simp only [Bool.false_eq_true, if_false]
+    cases hsw : startWriting (outOrNew out (finfo fi)) (finfo fi) with
+    | mk o2 e2 =>
+      rw [hsw] at hacc hap
+      simp only at hacc hap
+      subst hacc
+      simp only [hap]
+  · intro e he
+    unfold applyTo
+    rw [hr]
+    simp only [List.zip_cons_cons]
+    unfold applyLoop
+    simp only [Nat.cast_zero]
+    rw [hgf0, hti]
+    simp only [Bool.false_eq_true, if_false]
+    cases hsw : startWriting (outOrNew out (finfo fi)) (finfo fi) with
+    | mk o2 e2 =>
+      rw [hsw] at he
+      simp only at he
+      subst he
+      rfl
+
+
 end apply
+
+/-! ### acceptance: valid operations are never refused -/
+
+section acceptance
+variable {K F : Type} [Add K] [NatCast K]
+
+/-- no operation of the list raises -/
+def allAccepted : Store K F → List (SOp K F) → Prop
+  | _, [] => True
+  | s, op :: ops => (sstep s op).2 = none ∧ allAccepted (sstep s op).1 ops
+
+/-- the specification run on its own: every operation counted as accepted -/
+def Spec.run (sp : Spec K F) (ops : List (SOp K F)) : Spec K F :=
+  ops.foldl (fun sp op => sp.step op true) sp
+
+theorem runBoth_of_allAccepted (ops : List (SOp K F)) :
+    ∀ (s : Store K F) (sp : Spec K F), allAccepted s ops → (runBoth s sp ops).2 = sp.run ops := by
+  induction ops with
+  | nil => intro s sp _; rfl
+  | cons op ops ih =>
+    intro s sp h
+    obtain ⟨h1, h2⟩ := h
+    simp only [runBoth, Spec.run, List.foldl_cons, h1, Option.isNone_none]
+    exact ih _ _ h2
+
+theorem allAccepted_append (a b : List (SOp K F)) :
+    ∀ s : Store K F, allAccepted s (a ++ b) ↔ allAccepted s a ∧ allAccepted (srun s a) b := by
+  induction a with
+  | nil => intro s; simp [allAccepted, srun]
+  | cons op a ih =>
+    intro s
+    simp only [List.cons_append, allAccepted, srun_cons', ih, and_assoc]
+
+theorem srun_app (o : Store K F) (a b : List (SOp K F)) : srun o (a ++ b) = srun (srun o a) b := by
+  simp [srun, List.foldl_append]
+
+/-- a documented writable mode -/
+def Mode.writable (m : Mode) : Prop := m = .truncate ∨ m = .truncateOnce ∨ m = .append
+
+/-- one writing session as documented: `start_writing(fi)`, appends of fields on the grid of `fi` with the
+data shape of `fi` whose dtype numpy can cast (`true`), `end_writing()` -/
+def sessionOps (fi : FieldInfo) (ps : List (FieldInfo × K × F)) : List (SOp K F) :=
+  .start fi :: (ps.map (fun p => SOp.append p.1 (some p.2.1) p.2.2 true) ++ [.endW])
+
+def ValidSession (sh : List Nat) (fi : FieldInfo) (ps : List (FieldInfo × K × F)) : Prop :=
+  fi.shape = sh ∧ ∀ p ∈ ps, p.1.grid = fi.grid ∧ p.1.shape = sh
+
+theorem appends_accepted (fi : FieldInfo) : ∀ (ps : List (FieldInfo × K × F)) (o : Store K F),
+    Ready o fi → (∀ p ∈ ps, p.1.grid = fi.grid ∧ p.1.shape = fi.shape) →
+    allAccepted o (ps.map (fun p => SOp.append p.1 (some p.2.1) p.2.2 true)) ∧
+    Ready (srun o (ps.map (fun p => SOp.append p.1 (some p.2.1) p.2.2 true))) fi ∧
+    (srun o (ps.map (fun p => SOp.append p.1 (some p.2.1) p.2.2 true))).mode = o.mode := by
+  intro ps
+  induction ps with
+  | nil => intro o hr _; exact ⟨trivial, hr, rfl⟩
+  | cons p ps ih =>
+    intro o hr hp
+    obtain ⟨hg, hs⟩ := hp p (by simp)
+    have hr' : Ready o p.1 := ⟨hr.1, by rw [hr.2.1, hg], by rw [hr.2.2, hs]⟩
+    have hap := append_ready o p.1 p.2.1 p.2.2 true hr' (fun _ => rfl)
+    have hr2 : Ready ({ o with frames := o.frames ++ [p.2.2], times := o.times ++ [p.2.1] } : Store K F) fi := hr
+    obtain ⟨a1, a2, a3⟩ := ih _ hr2 (fun q hq => hp q (by simp [hq]))
+    simp only [List.map_cons, allAccepted, srun_cons', sstep, hap]
+    exact ⟨⟨trivial, a1⟩, a2, a3⟩
+
+/-- **a valid session is accepted as a whole**: in a documented writable mode, with the data shape unknown
+or equal to the field's, `start_writing`, every append of a field on the same grid with the same data shape
+and `end_writing` all succeed; afterwards the mode is still writable and the data shape is the field's -/
+theorem valid_session_accepted (s : Store K F) (sh : List Nat) (fi : FieldInfo)
+    (ps : List (FieldInfo × K × F)) (hm : s.mode.writable)
+    (hd : s.dataShape = none ∨ s.dataShape = some sh) (hv : ValidSession sh fi ps) :
+    allAccepted s (sessionOps fi ps) ∧ (srun s (sessionOps fi ps)).mode.writable ∧
+      (srun s (sessionOps fi ps)).dataShape = some sh := by
+  obtain ⟨hsh, hps⟩ := hv
+  have hacc : (startWriting s fi).2 = none := by
+    rw [start_accepted_iff]; exact ⟨hm, by rw [hsh]; exact hd⟩
+  obtain ⟨hr, _, _⟩ := startWriting_accepted_ready s fi hacc
+  have hmode : (startWriting s fi).1.mode.writable := by
+    rcases startWriting_cases s fi with ⟨_, _, _, _, hmd⟩ | ⟨he, _⟩
+    · rw [Mode.writable, hmd]
+      rcases hm with h | h | h <;> simp [h]
+    · exact absurd hacc he
+  obtain ⟨a1, a2, a3⟩ := appends_accepted fi ps (startWriting s fi).1 hr
+    (fun p hp => by rw [hsh]; exact hps p hp)
+  have hrun : srun s (sessionOps fi ps) =
+      srun (startWriting s fi).1 (ps.map (fun p => SOp.append p.1 (some p.2.1) p.2.2 true)) := by
+    unfold sessionOps
+    rw [srun_cons', srun_app]
+    rfl
+  refine ⟨?_, by rw [hrun, a3]; exact hmode, by rw [hrun, a2.2.2, hsh]⟩
+  unfold sessionOps
+  refine ⟨hacc, ?_⟩
+  simp only [sstep]
+  rw [allAccepted_append]
+  exact ⟨a1, rfl, trivial⟩
+
+/-- **any history of valid sessions** (no operation of it is refused) -/
+theorem valid_sessions_accepted (sh : List Nat) :
+    ∀ (ss : List (FieldInfo × List (FieldInfo × K × F))) (s : Store K F), s.mode.writable →
+      (s.dataShape = none ∨ s.dataShape = some sh) → (∀ x ∈ ss, ValidSession sh x.1 x.2) →
+      allAccepted s (ss.flatMap (fun x => sessionOps x.1 x.2)) := by
+  intro ss
+  induction ss with
+  | nil => intro s _ _ _; exact trivial
+  | cons x ss ih =>
+    intro s hm hd hv
+    obtain ⟨b1, b2, b3⟩ := valid_session_accepted s sh x.1 x.2 hm hd (hv x (by simp))
+    simp only [List.flatMap_cons]
+    rw [allAccepted_append]
+    exact ⟨b1, ih _ b2 (Or.inr b3) (fun y hy => hv y (by simp [hy]))⟩
+
+/-- **acceptance and content, composed**: on a new storage in a documented writable mode any history of
+valid sessions runs without a single refusal, and the storage then holds exactly the log of the
+specification run ON ITS OWN (`Spec.run`: no information from the model) -/
+theorem valid_history_stored (m : Mode) (hm : m.writable) (sh : List Nat)
+    (ss : List (FieldInfo × List (FieldInfo × K × F))) (hv : ∀ x ∈ ss, ValidSession sh x.1 x.2) :
+    let ops := ss.flatMap (fun x => sessionOps x.1 x.2)
+    allAccepted (Store.new m : Store K F) ops ∧
+    (srun (Store.new m : Store K F) ops).contents = ((Spec.init m : Spec K F).run ops).log := by
+  intro ops
+  have hacc := valid_sessions_accepted sh ss (Store.new m : Store K F) hm (Or.inl rfl) hv
+  refine ⟨hacc, ?_⟩
+  have := (read_returns_appended_in_order (K := K) (F := F) m ops).1
+  rw [this, runBoth_of_allAccepted ops _ _ hacc]
+
+end acceptance
 
 /-! ### the storage logic never looks into a frame (naturality in the frame type) -/
 
@@ -1727,6 +1932,57 @@ theorem frames_applyLoop (s : Store K F) (finfo : FieldInfo → FieldInfo) (c : 
                 · exact Or.inr (by simp only [List.map_cons, List.mem_cons]; exact Or.inr h5)
 
 end
+
+theorem mapM_except_map {α β γ : Type} (f : α → Except Err β) (f' : α → Except Err γ) (h : β → γ)
+    (hf : ∀ a, f' a = (f a).map h) : ∀ l : List α, l.mapM f' = (l.mapM f).map (List.map h) := by
+  intro l
+  induction l with
+  | nil => rfl
+  | cons a l ih =>
+    simp only [List.mapM_cons, ih, hf a]
+    cases f a with
+    | error e => rfl
+    | ok b =>
+      cases l.mapM f with
+      | error e => rfl
+      | ok bs => rfl
+
+theorem mapFrames_items (g : F → G) (s : Store K F) :
+    items (s.mapFrames g) = (items s).map (List.map (fun r => (r.1, r.2.1, g r.2.2))) := by
+  unfold items
+  apply mapM_except_map
+  intro p
+  rw [mapFrames_getField]
+  cases getField s (p.2 : Int) <;> rfl
+
+theorem mapFrames_getSlice (g : F → G) (s : Store K F) (a b : Option Int) :
+    getSlice (s.mapFrames g) a b = (getSlice s a b).map (List.map (fun r => (r.1, g r.2))) := by
+  unfold getSlice
+  apply mapM_except_map
+  intro i
+  rw [mapFrames_getField]
+
+theorem mapFrames_viewCreate (g : F → G) (s : Store K F) (fid : FieldId) :
+    viewCreate (s.mapFrames g) fid = viewCreate s fid := rfl
+
+theorem mapFrames_viewGet (g : F → G) (s : Store K F) (fidx k : Int) :
+    viewGet (s.mapFrames g) fidx k =
+      (viewGet s fidx k).map (fun r => (r.1, g r.2.1, r.2.2.1, r.2.2.2)) := by
+  unfold viewGet
+  rw [mapFrames_getField]
+  cases getField s k with
+  | error e => rfl
+  | ok r =>
+    obtain ⟨fi, f⟩ := r
+    simp only [Except.map]
+    split_ifs
+    · rfl
+    · cases pyIndex fi.members.length fidx with
+      | error e => rfl
+      | ok j =>
+        simp only
+        cases fi.members[j]? <;> rfl
+
 end natural
 
 /-! ### the world: aliasing, immutability of stored frames -/
@@ -3182,6 +3438,109 @@ theorem world_reads_appended (w : World K) (h : w.Inv) (hwf : w.AllWF) (m : Mode
   have hr := read_returns_appended_in_order (K := K) (F := List K) m (wtraceL sid w0 ops)
   exact ⟨hr.1, hr.2.1⟩
 
+/-! ### what the reading operations of the world return -/
+
+omit [Add K] [Sub K] [Mul K] [Neg K] [NatCast K] [LT K] [DecidableLT K] [LE K] [DecidableLE K] in
+theorem view_some (w : World K) (sid : Nat) (sv : Store K (List K)) (h : w.view sid = some sv) :
+    ∃ s, w.stores[sid]? = some s ∧ sv = s.mapFrames w.deref := by
+  unfold World.view at h
+  cases hs : w.stores[sid]? with
+  | none => rw [hs] at h; simp at h
+  | some s => rw [hs] at h; simp at h; exact ⟨s, rfl, h.symm⟩
+
+/-- `storage[i]` in the world returns what `_get_field` gives on the storage *as a reader sees it*
+(every frame replaced by its current content) -/
+theorem read_world (w : World K) (sid : Nat) (i : Int) (sv : Store K (List K))
+    (hv : w.view sid = some sv) :
+    (step w (.read sid i)).2 =
+      (match getField sv i with
+       | .error e => .error e
+       | .ok (fi, vals) => .ok (.field fi vals)) := by
+  obtain ⟨s, hs, rfl⟩ := view_some w sid sv hv
+  simp only [step, hs, mapFrames_getField]
+  cases getField s i with
+  | error e => rfl
+  | ok r => rfl
+
+/-- `list(storage.items())` in the world -/
+theorem items_world (w : World K) (sid : Nat) (sv : Store K (List K)) (hv : w.view sid = some sv) :
+    (step w (.items sid)).2 =
+      (match items sv with
+       | .error e => .error e
+       | .ok l => .ok (.items l)) ∧ (step w (.items sid)).1 = w := by
+  obtain ⟨s, hs, rfl⟩ := view_some w sid sv hv
+  simp only [step, hs, mapFrames_items]
+  cases Storage.items s with
+  | error e => exact ⟨rfl, rfl⟩
+  | ok l => exact ⟨rfl, rfl⟩
+
+/-- `storage[a:b]` in the world -/
+theorem slice_world (w : World K) (sid : Nat) (a b : Option Int) (sv : Store K (List K))
+    (hv : w.view sid = some sv) :
+    (step w (.slice sid a b)).2 =
+      (match getSlice sv a b with
+       | .error e => .error e
+       | .ok l => .ok (.fields l)) ∧ (step w (.slice sid a b)).1 = w := by
+  obtain ⟨s, hs, rfl⟩ := view_some w sid sv hv
+  simp only [step, hs, mapFrames_getSlice]
+  cases getSlice s a b with
+  | error e => exact ⟨rfl, rfl⟩
+  | ok l => exact ⟨rfl, rfl⟩
+
+/-- `storage.view_field(fid)[k]` in the world: the member's slice of the CURRENT content of frame `k` -/
+theorem view_field_world (w : World K) (sid : Nat) (fid : FieldId) (k : Int) (sv : Store K (List K))
+    (hv : w.view sid = some sv) :
+    (step w (.viewRead sid fid k)).2 =
+      (match viewCreate sv fid with
+       | .error e => .error e
+       | .ok fidx =>
+         match viewGet sv fidx k with
+         | .error e => .error e
+         | .ok (fi, vals, j, m) => .ok (.field (memberInfo fi m none) (sliceFrame fi j vals))) := by
+  obtain ⟨s, hs, rfl⟩ := view_some w sid sv hv
+  simp only [step, hs, mapFrames_viewCreate]
+  cases viewCreate s fid with
+  | error e => rfl
+  | ok fidx =>
+    simp only [mapFrames_viewGet]
+    cases viewGet s fidx k with
+    | error e => rfl
+    | ok r => rfl
+
+/-- **the property statement, observed through the operations themselves**: for a storage created in any
+reachable world, after any safe continuation, `storage[i]` RETURNS the data of the `i`-th pair of the
+specification log (the data the source field had at the moment of appending), every index outside
+`[-n, n)` raises `IndexError`, and `items()` returns the whole log in order -/
+theorem world_read_returns_appended (w : World K) (h : w.Inv) (hwf : w.AllWF) (m : Mode)
+    (ops : List (Op K)) (hops : ∀ op ∈ ops, op.safe = true) :
+    let w0 := (step w (.newStore m)).1
+    let sid := w.stores.length
+    let w1 := run w0 ops
+    let log := (runBoth (Store.new m) (Spec.init m) (wtraceL sid w0 ops)).2.log
+    (∀ i (hi : i < log.length), ∃ fi, (step w1 (.read sid (i : Int))).2 = .ok (.field fi (log[i]).2)) ∧
+    (∀ k (h1 : 1 ≤ k) (h2 : k ≤ log.length), ∃ fi,
+      (step w1 (.read sid (-(k : Int)))).2 = .ok (.field fi (log[log.length - k]'(by omega)).2)) ∧
+    (∀ i : Int, (i < -(log.length : Int) ∨ (log.length : Int) ≤ i) →
+      (step w1 (.read sid i)).2 = .error .index) ∧
+    (∃ l, (step w1 (.items sid)).2 = .ok (.items l) ∧ l.map (fun r => (r.1, r.2.2)) = log) := by
+  intro w0 sid w1 log
+  obtain ⟨sv, hv, hsv, _, _⟩ := world_reads_appended w h hwf m ops hops
+  have hr := read_returns_appended_in_order (K := K) (F := List K) m (wtraceL sid w0 ops)
+  simp only at hr
+  rw [← hsv] at hr
+  obtain ⟨_, ⟨l, hl1, hl2⟩, hnat, hneg, hout⟩ := hr
+  refine ⟨?_, ?_, ?_, ?_⟩
+  · intro i hi
+    obtain ⟨fi, _, hg⟩ := hnat i hi
+    exact ⟨fi, by rw [read_world w1 sid _ sv hv, hg]⟩
+  · intro k h1 h2
+    obtain ⟨fi, _, hg⟩ := hneg k h1 h2
+    exact ⟨fi, by rw [read_world w1 sid _ sv hv, hg]⟩
+  · intro i hi
+    rw [read_world w1 sid _ sv hv, hout i hi]
+  · exact ⟨l, by rw [(items_world w1 sid sv hv).1, hl1], hl2⟩
+
+
 end world
 
 /-! ### `from_collection` -/
@@ -3370,6 +3729,48 @@ example : ((run World.empty ([.newField exInfo [1, 2], .newField ⟨0, 2, [1, 2]
     (fun s => (s.contents, s.template.map (fun t => (t.shape, t.members.map (·.label))))) =
     some ([(0, [1, 2, 7, 8, 1, 2]), (2, [3, 4, 7, 8, 3, 4])],
       some ([3, 2], [some "a", some "w", some "a"])) := by decide +kernel
+
+/-- the hypotheses of `valid_session_accepted`/`valid_history_stored` are satisfiable: two valid sessions
+(the second one appends a field with another label on the same grid) on a `truncate_once` storage ... -/
+example : ValidSession (K := Rat) (F := List Rat) [2] exInfo [(exInfo, 0, [1, 2]), ({ exInfo with label := none }, 1/2, [3, 4])] :=
+  ⟨rfl, by simp [exInfo]⟩
+
+example : Mode.writable .truncateOnce := Or.inr (Or.inl rfl)
+
+/-- ... and what `valid_history_stored` then says, computed: nothing is refused (the specification run on its
+own gives the stored pairs), the second session does not truncate -/
+example : (srun (Store.new .truncateOnce : Store Rat (List Rat))
+      (sessionOps exInfo [(exInfo, 0, [1, 2]), ({ exInfo with label := none }, 1/2, [3, 4])] ++
+       sessionOps exInfo [(exInfo, 1, [5, 6])])).contents =
+    ((Spec.init .truncateOnce : Spec Rat (List Rat)).run
+      (sessionOps exInfo [(exInfo, 0, [1, 2]), ({ exInfo with label := none }, 1/2, [3, 4])] ++
+       sessionOps exInfo [(exInfo, 1, [5, 6])])).log ∧
+    ((Spec.init .truncateOnce : Spec Rat (List Rat)).run
+      (sessionOps exInfo [(exInfo, 0, [1, 2]), ({ exInfo with label := none }, 1/2, [3, 4])] ++
+       sessionOps exInfo [(exInfo, 1, [5, 6])])).log = [(0, [1, 2]), (1/2, [3, 4]), (1, [5, 6])] := by
+  decide +kernel
+
+/-- an INVALID session (wrong data shape) is refused: the hypothesis `ValidSession` is needed -/
+example : (sstep (srun (Store.new .truncateOnce : Store Rat (List Rat)) [.start exInfo])
+    (.append { exInfo with shape := [3] } (some 0) [1, 2, 3] true)).2 = some .value := by decide +kernel
+
+/-- `world_read_returns_appended` on a concrete history (hypotheses `inv_empty`, `allwf_empty`, all
+operations safe): the read returns the data the source had when it was appended, not its later content -/
+example : ∀ op ∈ ([.newField exInfo [1, 2], .start 0 0, .append 0 0 (some 0) true, .setField 0 [7, 8],
+    .read 0 0, .setField 1 [9, 9]] : List (Op Rat)), op.safe = true := by decide +kernel
+
+example : (match (step (run (step (World.empty : World Rat) (.newStore .truncateOnce)).1
+      [.newField exInfo [1, 2], .start 0 0, .append 0 0 (some 0) true, .setField 0 [7, 8], .read 0 0,
+       .setField 1 [9, 9]]) (.read 0 (-1))).2 with
+    | .ok (.field _ v) => v
+    | _ => []) = [1, 2] := by decide +kernel
+
+/-- `extract_time_range_consistent` on unsorted times: a contiguous run (here frames 2 and 3), not the
+interval filter (which would also contain the pair with time 2) -/
+example : (match extractTimeRange ({ (Store.new .append : Store Rat Nat) with
+      times := [2, 0, 3, 1, 4], frames := [0, 1, 2, 3, 4] }) (.pair (some 1) (some 3)) with
+    | .ok s' => s'.contents
+    | .error _ => []) = [(3, 2), (1, 3)] := by decide +kernel
 
 end examples
 
